@@ -111,10 +111,12 @@ func stdSeqJoin(_ context.Context, joiner, subject rel.Value) (rel.Value, error)
 			return arrayJoin(joiner, subject)
 		}
 	case rel.Bytes:
-		if _, isSet := joiner.(rel.GenericSet); isSet {
+		switch joiner.(type) {
+		case rel.GenericSet:
 			return subject, nil
+		case rel.Bytes, rel.EmptySet:
+			return bytesJoin(joiner, subject), nil
 		}
-		return bytesJoin(joiner, subject), nil
 	case rel.GenericSet:
 		switch joiner.(type) {
 		case rel.String:
